@@ -511,7 +511,7 @@ theorem evalStmt_iterate1 (n ln : Nat) (e : Expr) (x : Ident) (body : Option (Li
               | some v => do
                 let ks ← newStr k
                 iterPass1 n vn body v
-              | none => goPanic
+              | none => pure false
             | _ => goPanic) order
         | _ => rtErr 80
       newNull) := by
@@ -551,7 +551,7 @@ theorem evalStmt_iterate2 (n ln : Nat) (e : Expr) (k x : Ident) (body : Option (
               | some v => do
                 let ks ← newStr k
                 iterPass2 n kn vn body ks v
-              | none => goPanic
+              | none => pure false
             | _ => goPanic) order
         | _ => rtErr 80
       newNull) := by
